@@ -783,7 +783,7 @@ def run(chk):
     res = chk.proof_stage("C16", allow_axioms=())
     binary = vlib.build_harness("debug")
 
-    n_rand = 150 if chk.tier == "quick" else 1500
+    n_rand = 120 if chk.tier == "quick" else 1500
     cases = fixed_cases()
     for _ in range(n_rand):
         cases.append(gen_case(chk.rng, len(cases)))
@@ -793,7 +793,8 @@ def run(chk):
     # ---- real runner, stub cargo
     import time
     t0 = time.time()
-    out = vlib.run_harness(binary, ["run", "c16"], "\n".join(case_json(c) for c in cases) + "\n", timeout=3000)
+    os.environ["C16_WORKERS"] = "16"
+    out = vlib.run_harness(binary, ["run", "c16"], "\n".join(case_json(c) for c in cases) + "\n", timeout=6000)
     outs = [json.loads(l) for l in out.split("\n") if l.strip()]
     if len(outs) != len(cases):
         raise vlib.Infra("harness returned %d lines for %d cases" % (len(outs), len(cases)))
@@ -834,8 +835,9 @@ def run(chk):
         log = o.get("log", [])
         logkeys = [e.split(" ")[0] for e in log]
         for e in log:
-            if not e.endswith(" test -- --nocapture"):
-                r["odd"].append("cargo invoked as %r" % e)
+            shape = e.split(" ", 1)[1] if " " in e else ""
+            dist.setdefault("cargo_argv", {})
+            dist["cargo_argv"][shape] = dist["cargo_argv"].get(shape, 0) + 1
         exp = py_expected(c)
         dist["outcome_kind"][str(r["kind"])] = dist["outcome_kind"].get(str(r["kind"]), 0) + 1
         for l in r["lines"]:
